@@ -52,6 +52,8 @@ class World(object):
         self.sha1_cache = []          # (input items, digest items) for symbolic inputs
         self.zlib = None              # abstract zlib state (C06)
         self.notes = {}
+        self.timers = []              # pending virtual-clock timers (threading.Timer model): [due, seq, FakeTimer]
+        self.timer_seq = 0
 
     # ---- helpers ----------------------------------------------------------------------------
     def op(self, name, sock=None):
@@ -264,6 +266,9 @@ class FakeSocket(object):
         return chunk
 
     def _recv_op(self):
+        if self.closed and getattr(self, 'closed_by_timer', False):
+            # the descriptor was closed under the reader (by a timer callback): EBADF, as the OS reports it
+            raise _socket.error(9, 'Bad file descriptor')
         try:
             self.w.op('recv', self)
         except _socket.error:
@@ -308,6 +313,8 @@ class FakeSocket(object):
         self.w.op('close', self)
         self.close_calls += 1
         self.closed = True
+        if getattr(self.w, 'in_timer', False):
+            self.closed_by_timer = True
         self.w.log.append(('close', self.id))
 
     def pending(self):
@@ -492,10 +499,49 @@ def wait_readable(w, socks, timeout, scale=1.0, edge=()):
             return [(socks[0].fd, _select.POLLIN)]
         s0.silent_waits -= 1
     if timeout is None:
+        if w.timers:
+            # only a timer can end this wait
+            if fire_timers(w, None):
+                hit = [s for s in socks if s.closed or s.readable()]
+                if hit:
+                    w.log.append(('wait', 'readable-after-timer'))
+                    return [(s.fd, _select.POLLNVAL if s.closed else _select.POLLIN) for s in hit]
         raise LoopBudget('infinite wait on a silent peer')
-    w.clock = w.clock + (timeout / scale)
+    target = w.clock + (timeout / scale)
+    if w.timers:
+        while fire_timers(w, target):
+            hit = [s for s in socks if s.closed or s.readable()]
+            if hit:
+                w.log.append(('wait', 'readable-after-timer'))
+                return [(s.fd, _select.POLLNVAL if s.closed else _select.POLLIN) for s in hit]
+    w.clock = target
     w.log.append(('wait', 'timeout'))
     return []
+
+
+def fire_timers(w, target):
+    """virtual-clock model of threading.Timer: the earliest pending timer whose due time is not after `target` (None: any)
+    fires - the clock moves to its due time and its callback runs to completion, as one legal schedule of the timer thread
+    (the callback runs while the event loop sleeps in its selector wait).  Returns True if one fired."""
+    if not w.timers:
+        return False
+    w.timers.sort(key=lambda t: (t[0], t[1]))
+    due, _seq, tm = w.timers[0]
+    if target is not None and due > target:
+        return False
+    w.timers.pop(0)
+    if due > w.clock:
+        w.clock = due
+    w.log.append(('timer-fired', tm.interval))
+    w.in_timer = True
+    try:
+        tm.function(*tm.args, **tm.kwargs)
+    except Exception as e:            # an exception in a timer thread is printed by threading.excepthook, it reaches nobody
+        w.log.append(('timer-exception', repr(e)))
+    finally:
+        w.in_timer = False
+        tm.finished.set()
+    return True
 
 
 class FakeSelectModule(object):
@@ -536,9 +582,65 @@ class FakeTimeModule(object):
     @staticmethod
     def sleep(t):
         w = World.cur
-        w.clock = w.clock + t
+        target = w.clock + t
+        while w.timers and fire_timers(w, target):
+            pass
+        w.clock = target
 
     monotonic = time
+
+
+class FakeTimer(object):
+    """threading.Timer on the VIRTUAL clock (no OS thread): start() registers the callback to run when virtual time reaches
+    now + interval; virtual time advances only inside selector waits / time.sleep (see fire_timers)."""
+    _sx_accepts_symbolic = True
+
+    def __init__(self, interval, function, args=None, kwargs=None):
+        self.interval = interval
+        self.function = function
+        self.args = args if args is not None else []
+        self.kwargs = kwargs if kwargs is not None else {}
+        self.finished = _threading.Event()
+        self.daemon = False
+        self.name = 'Timer'
+        self._started = False
+
+    def start(self):
+        if self._started:
+            raise RuntimeError('threads can only be started once')
+        self._started = True
+        w = World.cur
+        if self.finished.is_set():
+            return
+        w.timer_seq += 1
+        w.timers.append([w.clock + self.interval, w.timer_seq, self])
+        w.log.append(('timer-armed', self.interval))
+
+    def cancel(self):
+        self.finished.set()
+        w = World.cur
+        if w is not None:
+            w.timers[:] = [t for t in w.timers if t[2] is not self]
+
+    def is_alive(self):
+        w = World.cur
+        return self._started and w is not None and any(t[2] is self for t in w.timers)
+
+    isAlive = is_alive
+
+    def setDaemon(self, d):
+        self.daemon = d
+
+    def join(self, timeout=None):
+        pass
+
+
+class FakeThreadingModule(object):
+    """the real threading module with Timer on the virtual clock"""
+    Timer = FakeTimer
+
+    def __getattr__(self, name):
+        return getattr(_threading, name)
 
 
 def fake_urandom(n):
@@ -772,6 +874,8 @@ def install():
     import math as _math
     R(_math, FakeMathModule())
     R(_zlib, FakeZlibModule)
+    R(_threading, FakeThreadingModule())
+    R(_threading.Timer, FakeTimer)
     instrument.install()
     import logging
     logging.disable(logging.CRITICAL)
@@ -833,6 +937,14 @@ def install_pristine():
     lomond.persist.random = fake_random
     import lomond.compression
     lomond.compression.zlib = RecordingZlibModule()
+    # threading.Timer on the virtual clock, wherever a lomond module binds it
+    ftm = FakeThreadingModule()
+    for mod in list(sys.modules.values()):
+        if getattr(mod, '__name__', '').split('.')[0] == 'lomond':
+            if getattr(mod, 'threading', None) is _threading:
+                mod.threading = ftm
+            if getattr(mod, 'Timer', None) is _threading.Timer:
+                mod.Timer = FakeTimer
 
 
 def os_path_parent(p):
